@@ -67,13 +67,20 @@ def cases_for_graph(cid, n, parents, present, cases, expect, pairs=None, sets=Tr
             pols = [['policy', S('pin'), 'permit', ['in', node(b)], ['all'], ['all'], ['conds']],
                     ['policy', S('pisin'), 'permit', ['isin', S('N0'), node(b)], ['all'], ['all'], ['conds']],
                     ['policy', S('rin'), 'permit', ['all'], ['all'], ['in', node(b)], ['conds']],
-                    ['policy', S('rwrong'), 'permit', ['all'], ['all'], ['isin', S('N0'), node(b)], ['conds']]]
+                    ['policy', S('rwrong'), 'permit', ['all'], ['all'], ['isin', S('N0'), node(b)], ['conds']],
+                    # the same questions asked in condition bodies over literals only (these go through the compiled / constant-folded form)
+                    ['policy', S('cin'), 'permit', ['all'], ['all'], ['all'], ['conds', ['when', ['in', lit(node(0)), lit(node(b))]]]],
+                    ['policy', S('cinset'), 'permit', ['all'], ['all'], ['all'], ['conds', ['when', ['in', lit(node(0)), ['mkset', lit(node(n)), lit(node(b))]]]]],
+                    ['policy', S('cisin'), 'permit', ['all'], ['all'], ['all'], ['conds', ['unless', ['not', ['isIn', lit(node(0)), S('N0'), lit(node(b))]]]]]]
+            pols = pols[4:] + pols[:4]            # ids in ascending order
             k += 1
             c = case('%s_%d' % (cid, k), 'authz', st, req, ['policies'] + pols)
             cases.append(c)
             rs = []
             if b in r0:
-                rs += [S('pin'), S('pisin')]
+                rs += [S('pin'), S('pisin'), S('cin'), S('cisin')]
+            if b in r0 or n in r0:
+                rs += [S('cinset')]
             if b in r1:
                 rs += [S('rin')]
             rs.sort()
